@@ -120,6 +120,10 @@ def run(chk):
             lines.append("# number of grains = %d" % ng)
         if convert:
             lines.append("# convert spherical = true")
+        if fi % 4 == 2:
+            # option lines with trailing remarks after the value ("# compositions = 2  # crust types"): the value still counts
+            tails = ["  # remark", " # R long lat", " units", "   #", " % note"]
+            lines = [l + tails[(fi // 4 + k) % len(tails)] if (l.startswith("# ") and " = " in l) else l for k, l in enumerate(lines)]
         short = rng.random() < 0.35
         if short:
             lines.insert(rng.randint(0, len(lines)), rng.choice(["#", "# dim", "# compositions =", "# number of grains", "# convert spherical ="]))
